@@ -113,6 +113,8 @@ def gen_case(rng, tier):
         all_taken = True
     case = {"channel": channel, "graph": gen.L(triples), "target": target, "options": options, "ns": ns,
             "exempt_random_prefix": all_taken}
+    if endpoint and rng.random() < 0.25:
+        case["repeat_rows"] = True       # an endpoint may repeat rows (a triple in two named graphs); still deterministic
     return case
 
 
@@ -177,7 +179,7 @@ def _case_kwargs(case, sim):
         kw["rdflib_graph"] = g
     elif ch in ("endpoint_on", "endpoint_off", "endpoint_deep", "endpoint_mixed"):
         triples = [gen.T(t) for t in case["graph"]]
-        sim.set_endpoint(SimEndpoint(sim, triples, row_seed=0, canonical_rows=True))
+        sim.set_endpoint(SimEndpoint(sim, triples, row_seed=0, canonical_rows=True, repeat_rows=bool(case.get("repeat_rows"))))
         kw["url_endpoint"] = EP_URL
         if ch != "endpoint_on":
             kw["disable_endpoint_cache"] = True
